@@ -354,7 +354,7 @@ class ModelBase:
                 el = self.iter_item(interp, st, a0, None, None)
                 interp.emit('minmax', node, which=name, arg=a0)
                 return el.w(deps=d)
-            return join_all(args).w(deps=d, const=None)
+            return join_all(args).w(deps=d, const=None, minmax=(name, list(args)))
         if name == 'sum':
             el = self.iter_item(interp, st, a0, None, None)
             m = el.mono.wrap('sum') if el.mono is not None else None
